@@ -27,38 +27,10 @@ NILPOOLS == "nil"      \* a PoolEvent carrying no pools (rejected by SetPools)
 CtlState(L, al) == [L |-> L, al |-> al]
 CtlInit(S) == CtlState(NOCFG, [s \in S |-> NULL])
 
-(* controller.SetBalancer: the C20 family's transcription of the SyncState logic of
-   controller/main.go, kept in step with the code (it is Controller!Handle except for the points
-   below; Converge, AllocateIPs and the allocator operators are re-used unchanged):
-   - Allocator.AllocationKey is the plain concatenation backend + sharing, so an allocation without
-     keys has the same key ("") as no allocation;
-   - since the fix "reprocess all services also when the released allocation was never persisted"
-     the gave-up-an-address test comes before the no-change early return, i.e. it no longer
-     depends on the Service object needing a write.
-   A lag of this transcription behind the code shows up as DRIFT in ListenerTrace, never as a
-   violation.                                                                                   *)
-LAllocKey(al, s) == IF al[s] = NULL THEN "" ELSE al[s].bk \o al[s].sk
-LHandle(L, al, s, o) ==
-  IF o = NULL THEN
-     IF al[s] # NULL
-     THEN {[al |-> UnassignRes(al, s), res |-> "ReprocessAll", write |-> FALSE, status |-> <<>>, ann |-> ""]}
-     ELSE {[al |-> al, res |-> "Success", write |-> FALSE, status |-> <<>>, ann |-> ""]}
-  ELSE IF L = NOCFG THEN {[al |-> al, res |-> "Success", write |-> FALSE, status |-> o.status, ann |-> o.ann]}
-  ELSE
-   { LET prevIPs == IF al[s] = NULL THEN <<>> ELSE al[s].ips
-         res0 == IF c.err THEN "ErrorNoRetry" ELSE "Success"
-         res1 == IF LAllocKey(al, s) # LAllocKey(c.al, s) THEN "ReprocessAll" ELSE res0
-         changed == c.status # o.status \/ c.ann # o.ann
-         gaveUp == IF c.al[s] = NULL THEN TRUE ELSE ~(Range(prevIPs) \subseteq Range(c.al[s].ips))
-         res2 == IF prevIPs # <<>> /\ gaveUp /\ PoolsFor(L, Range(prevIPs)) # {}
-                 THEN "ReprocessAll" ELSE res1
-     IN [al |-> c.al, res |-> res2, write |-> changed, status |-> c.status, ann |-> c.ann]
-     : c \in Converge(L, al, s, o) }
-
 (* outcomes of one event applied to state st: set of [st, res, write, status, ann] *)
 SvcEvt(st, s, o) ==
   { [st |-> CtlState(st.L, h.al), res |-> h.res, write |-> h.write, status |-> h.status, ann |-> h.ann]
-    : h \in LHandle(st.L, st.al, s, o) }
+    : h \in Handle(st.L, st.al, s, o) }
 
 PoolEvt(st, L2) ==
   IF L2 = NILPOOLS
@@ -84,7 +56,7 @@ Counters(st) == [pn \in AllPoolNames |-> Ctr(st.L, st.al, pn)]
 (* ---- event alphabet of the controller side (harness input domain) ------ *)
 LSp(type, fam, pol, share, ports, etp, sel, reqIPs, reqPool) ==
   [type |-> type, fam |-> fam, pol |-> pol, v6first |-> FALSE, cips |-> TRUE, share |-> share, ports |-> ports,
-   etp |-> etp, sel |-> sel, reqIPs |-> reqIPs, reqPool |-> reqPool]
+   etp |-> etp, sel |-> sel, reqIPs |-> reqIPs, reqPool |-> reqPool, dep |-> FALSE, legacy |-> "", bad |-> FALSE]
 LPlain == LSp("LB", "v4", "S", "", {"tcp80"}, "Cluster", "x", <<>>, "")
 
 CtlSpecs ==
@@ -99,7 +71,9 @@ CtlSpecs ==
          LSp("LB", "v6", "S", "", {"tcp80"}, "Cluster", "x", <<>>, ""),
          LSp("LB", "dual", "R", "", {"tcp80"}, "Cluster", "x", <<>>, ""),
          LSp("LB", "dual", "P", "", {"tcp80"}, "Cluster", "x", <<>>, ""),
-         LSp("LB", "v4", "P", "", {"tcp80"}, "Cluster", "x", <<>>, "") }
+         LSp("LB", "v4", "P", "", {"tcp80"}, "Cluster", "x", <<>>, ""),
+         [LPlain EXCEPT !.bad = TRUE],
+         [LSp("LB", "v4", "S", "k1", {"tcp443"}, "Cluster", "x", <<>>, "") EXCEPT !.dep = TRUE] }
 CtlLayouts == {"One", "Two", "TwoRen", "TwoSplit", "TwoPlus", "Dual", "Mixed", "A", "Asplit"}
 CtlSvcs == {"s1", "s2", "s3", "s4"}
 
